@@ -55,6 +55,8 @@ let run mode file =
     | "o" :: rest -> cur := rest; incr opidx;
       (match rest with ["beginw"] | "commitfail" :: _ | ["commit"] -> (match rest with ["beginw"] -> () | _ -> meta_written := false; fail_kind := "") | _ -> ());
       (match rest with "img" :: _ -> () | _ -> Buffer.add_string optext (String.concat " " rest); Buffer.add_char optext '\n')
+    | "r" :: "panic" :: msg when not !dead && not spec ->
+      propfail "panic" (String.concat " " msg); dead := true
     | "r" :: res when not !dead ->
       incr ops;
       let res_s = String.concat " " res in
